@@ -14,4 +14,5 @@ def obligations(tier):
             obls.append(api_step(2, it, ot, kind, 2))
     for (it, ot) in [(0, 0), (5, 6)]:
         obls.append(api_step(1, it, ot, 2, 2))
+    obls += [o for o in kern_set(tier) if 'oirtight' not in o.name and 'hiprec' not in o.name]
     return obls
